@@ -550,12 +550,19 @@ func (hotMod) resources() []string            { return []string{"r1", "r2"} }
 func (hotMod) nvariants() int64               { return 9 }
 func (hotMod) probeTable() map[string][]string {
 	return map[string][]string{"p1": {"R1"}, "p2": {"R2"}, "p3": {"R3"}, "all": {"R1", "R2", "R3"},
-		"p1x2": {"R1"}, "p2x2": {"R2"}, "p3x2": {"R3"}, "pinv": {"I1", "I2", "I3", "Nil"}}
+		"p1x2": {"R1"}, "p2x2": {"R2"}, "p3x2": {"R3"}, "p3w": {}, "p3wx4": {}, "p3i": {}, "p3s": {}, "pinv": {"I1", "I2", "I3", "Nil"}}
 }
 
 // every field hotspot.Rule.Equals / IsStatReusable looks at (ParamIndex cannot change alone: an index together with a
 // key is invalid).  A threshold of 1 admits the single request of p<k>; p<k>x2 observes the SECOND of two requests at
 // one instant, which a threshold of 1 refuses as well.
+// COMPOSITE FIELD SpecificItems (a map): variants that differ in ONE ENTRY - a key replaced in a map of the same size (the
+// dropped key's threshold 0 / non-zero), an entry added / removed, a value changed, nil vs the empty map, an int key vs the
+// string key with the same digits (the key types ext/datasource/hotspot_rule_converter.go produces).  Consecutive entries of
+// the table are reloaded over each other (the scenario families pair delta k with delta k+1), so the order below makes every
+// one of these one-entry changes a reload.  The probes p3w / p3wx4 / p3i / p3s send attachment k3 = "w" (once / the 4th of
+// four at one instant) / int 7 / "7": each key is limited by ITS OWN threshold (0 = refused, 3 = the 4th refused) or, when the
+// map does not hold it, by the rule's general threshold (1000 = admitted).
 var hotNear = []struct {
 	nearDelta
 	f func(r *hotspot.Rule)
@@ -565,7 +572,11 @@ var hotNear = []struct {
 	{same("R1", "BurstCount 1"), func(r *hotspot.Rule) { r.BurstCount = 1 }},
 	{same("R1", "ParamsMaxCapacity 1"), func(r *hotspot.Rule) { r.ParamsMaxCapacity = 1 }},
 	{same("R1", "DurationInSec 2"), func(r *hotspot.Rule) { r.DurationInSec = 2 }},
+	{same("R1", "SpecificItems {} (empty, not nil)"), func(r *hotspot.Rule) { r.SpecificItems = map[interface{}]int64{} }},
 	{same("R1", "SpecificItems {z:5}"), func(r *hotspot.Rule) { r.SpecificItems = map[interface{}]int64{"z": 5} }},
+	{same("R1", "SpecificItems {q:5} (key replaced)"), func(r *hotspot.Rule) { r.SpecificItems = map[interface{}]int64{"q": 5} }},
+	{same("R1", "SpecificItems {q:0} (value changed to 0)"), func(r *hotspot.Rule) { r.SpecificItems = map[interface{}]int64{"q": 0} }},
+	{same("R1", "SpecificItems {z:0} (zero-threshold key replaced)"), func(r *hotspot.Rule) { r.SpecificItems = map[interface{}]int64{"z": 0} }},
 	{blk("R1", "SpecificItems {x:1}", "p1x2"), func(r *hotspot.Rule) { r.SpecificItems = map[interface{}]int64{"x": 1} }},
 	{same("R1", "ControlBehavior Throttling"), func(r *hotspot.Rule) { r.ControlBehavior = hotspot.Throttling }},
 	{same("R1", "MetricType Concurrency"), func(r *hotspot.Rule) { r.MetricType = hotspot.Concurrency }},
@@ -575,12 +586,28 @@ var hotNear = []struct {
 	{blk("R2", "Threshold 1", "p2x2"), func(r *hotspot.Rule) { r.Threshold = 1 }},
 	{same("R2", "DurationInSec 2"), func(r *hotspot.Rule) { r.DurationInSec = 2 }},
 	{same("R2", "SpecificItems {y:4}"), func(r *hotspot.Rule) { r.SpecificItems = map[interface{}]int64{"y": 4} }},
+	{same("R2", "SpecificItems {z:4} (key replaced)"), func(r *hotspot.Rule) { r.SpecificItems = map[interface{}]int64{"z": 4} }},
+	{same("R2", "SpecificItems {z:4, w:0} (entry added)"), func(r *hotspot.Rule) { r.SpecificItems = map[interface{}]int64{"z": 4, "w": 0} }},
+	{same("R2", "SpecificItems {z:4, v:1} (zero-threshold key replaced)"), func(r *hotspot.Rule) { r.SpecificItems = map[interface{}]int64{"z": 4, "v": 1} }},
+	{same("R2", "SpecificItems nil (all entries removed)"), func(r *hotspot.Rule) { r.SpecificItems = nil }},
 	// R3 = QPS/Reject on k3, threshold 1000, SpecificItems {x:0}
 	{same("R3", "BurstCount 1"), func(r *hotspot.Rule) { r.BurstCount = 1 }},
 	{same("R3", "Threshold 999"), func(r *hotspot.Rule) { r.Threshold = 999 }},
 	{blk("R3", "SpecificItems {x:1}", "p3x2"), func(r *hotspot.Rule) { r.SpecificItems = map[interface{}]int64{"x": 1} }},
 	{same("R3", "DurationInSec 2"), func(r *hotspot.Rule) { r.DurationInSec = 2 }},
 	{same("R3", "ParamsMaxCapacity 1"), func(r *hotspot.Rule) { r.ParamsMaxCapacity = 1 }},
+	// SpecificItems of R3 = {x:0}; each entry differs from its predecessor in one map entry
+	{blk("R3", "SpecificItems {w:0} (zero-threshold key replaced)", "p3w", "p3wx4"), func(r *hotspot.Rule) { r.SpecificItems = map[interface{}]int64{"w": 0} }},
+	{blk("R3", "SpecificItems {x:0, w:0} (entry added)", "p3", "p3x2", "all", "p3w", "p3wx4"), func(r *hotspot.Rule) { r.SpecificItems = map[interface{}]int64{"x": 0, "w": 0} }},
+	{same("R3", "SpecificItems {x:0, z:50} (zero-threshold key replaced by another entry)"), func(r *hotspot.Rule) { r.SpecificItems = map[interface{}]int64{"x": 0, "z": 50} }},
+	{same("R3", "SpecificItems {x:0, y:50} (key with a non-zero threshold replaced)"), func(r *hotspot.Rule) { r.SpecificItems = map[interface{}]int64{"x": 0, "y": 50} }},
+	{blk("R3", "SpecificItems {w:3, y:50} (zero-threshold key replaced, same size)", "p3wx4"), func(r *hotspot.Rule) { r.SpecificItems = map[interface{}]int64{"w": 3, "y": 50} }},
+	{blk("R3", "SpecificItems {w:3} (entry removed)", "p3wx4"), func(r *hotspot.Rule) { r.SpecificItems = map[interface{}]int64{"w": 3} }},
+	{blk("R3", "SpecificItems {} (last entry removed)"), func(r *hotspot.Rule) { r.SpecificItems = map[interface{}]int64{} }},
+	{blk("R3", "SpecificItems nil"), func(r *hotspot.Rule) { r.SpecificItems = nil }},
+	{blk("R3", "SpecificItems {7:0} (int key)", "p3i"), func(r *hotspot.Rule) { r.SpecificItems = map[interface{}]int64{7: 0} }},
+	{blk("R3", "SpecificItems {\"7\":0} (string key, same digits)", "p3s"), func(r *hotspot.Rule) { r.SpecificItems = map[interface{}]int64{"7": 0} }},
+	{blk("R3", "SpecificItems {7:0, \"7\":1} (both key types)", "p3i"), func(r *hotspot.Rule) { r.SpecificItems = map[interface{}]int64{7: 0, "7": 1} }},
 }
 
 func (hotMod) near() []nearDelta {
@@ -693,6 +720,28 @@ func (hotMod) probe(abs string) []hx.M {
 		at := map[interface{}]interface{}{p.key: "x"}
 		if e, _ := entry(res, abs, api.WithAttachments(at)); e != nil {
 			e.Exit()
+		}
+		a := &answer{"pass"}
+		e, by := entry(res, abs, api.WithAttachments(at))
+		a.see(by)
+		if e != nil {
+			e.Exit()
+		}
+		out = append(out, pr(abs, p.name, a))
+	}
+	// other values of attachment k3: each is limited by ITS OWN entry of SpecificItems (or, when the map does not hold it,
+	// by the general threshold): p3w "w" once, p3wx4 the FOURTH of four "w" at one instant, p3i the int 7, p3s the string "7"
+	for _, p := range []struct {
+		name string
+		val  interface{}
+		n    int
+	}{{"p3w", "w", 1}, {"p3wx4", "w", 4}, {"p3i", 7, 1}, {"p3s", "7", 1}} {
+		adv(20000)
+		at := map[interface{}]interface{}{"k3": p.val}
+		for i := 1; i < p.n; i++ {
+			if e, _ := entry(res, abs, api.WithAttachments(at)); e != nil {
+				e.Exit()
+			}
 		}
 		a := &answer{"pass"}
 		e, by := entry(res, abs, api.WithAttachments(at))
